@@ -93,11 +93,13 @@ fn one_gds(id: &str, t: &mut Tape, dir: &Path, probes: &mut std::collections::BT
             });
             let r = gds21::GdsLibrary::open(&fifo);
             // if the reader never opened the pipe, the writer is still blocked in open(2): release it before joining
-            {
+            // (the read end stays open until the writer is done: the stream is < 60 000 bytes and fits the pipe buffer)
+            let keep = {
                 use std::os::unix::fs::OpenOptionsExt;
-                let _ = std::fs::OpenOptions::new().read(true).custom_flags(libc::O_NONBLOCK).open(&fifo);
-            }
+                std::fs::OpenOptions::new().read(true).custom_flags(libc::O_NONBLOCK).open(&fifo)
+            };
             let _ = w.join();
+            drop(keep);
             *probes.entry("opened_through_a_fifo".into()).or_insert(0) += 1;
             match r {
                 Err(e) => return Some(Viol { sig: "realfs:open-fifo/result".into(), detail: format!("a conformant stream delivered through a named pipe is rejected: {}", e) }),
@@ -106,6 +108,27 @@ fn one_gds(id: &str, t: &mut Tape, dir: &Path, probes: &mut std::collections::BT
                         return Some(Viol { sig: "realfs:open-fifo/value".into(), detail: "the library read through a named pipe differs".into() });
                     }
                 }
+            }
+        }
+    }
+    if id == "C01" && bytes0.len() > 8 {
+        // history on a real path: read it, replace it by a different stream of the SAME length, read it again
+        let p2 = dir.join("twice.gds");
+        std::fs::write(&p2, &bytes0).unwrap();
+        if gds21::GdsLibrary::open(&p2).is_ok() {
+            let mut b1 = bytes0.clone();
+            b1[5] = b1[5].wrapping_add(1); // low byte of the HEADER version
+            std::fs::write(&p2, &b1).unwrap();
+            match gds21::GdsLibrary::open(&p2) {
+                Ok(l2) => {
+                    let mut want = lib.clone();
+                    want.version = i16::from_be_bytes([b1[4], b1[5]]);
+                    if l2 != want {
+                        return Some(Viol { sig: "realfs:reopen-after-overwrite/value".into(), detail: "after the file was replaced by a different stream of the same length, open returned something else than the new content (stale?)".into() });
+                    }
+                    *probes.entry("reopen_after_same_length_overwrite".into()).or_insert(0) += 1;
+                }
+                Err(e) => return Some(Viol { sig: "realfs:reopen-after-overwrite/result".into(), detail: e.to_string() }),
             }
         }
     }
